@@ -257,9 +257,26 @@ theorem localT_skips (k : Kind) (b : Bool) (fm : Status → Bool) (hk : k ≠ .h
     localT Gen.Sem.localBody k b false fm = some none ∧ localT Gen.Sem.localBody k b true (fun _ => false) = some none := by
   cases k <;> cases b <;> simp at hk <;> simp [localT, firstRow, holdsLits, envLocal, Gen.Sem.localBody, execLocal]
 
+/-- `statusAll(ctx, TrackerStatusUndefined)` (every status matches) lists for `c` what the model's `listingR` says: the table entry's status
+    if there is one, else `localStatus`'s entry; nothing at all when the listing failed -/
+theorem statusAllT_eq (s : State) (ls : Bool) (c : Nat) :
+    statusAllT Gen.Sem.statusAll Gen.Sem.statusAllOverlay Gen.Sem.statusAllFilter s ls (fun _ => true) c = some (listingR s ls c) := by
+  unfold statusAllT listingR statusAllOf
+  cases ls
+  · simp [firstRow, holdsLits, envErr, Gen.Sem.statusAll, execSA]
+  · cases h : s.cur c with
+    | some i => simp [firstRow, holdsLits, envErr, envSelf, Gen.Sem.statusAll, Gen.Sem.statusAllOverlay, Gen.Sem.statusAllFilter, execSA]
+    | none =>
+      cases hs : s.shared c with
+      | none => simp [firstRow, holdsLits, envErr, envSelf, Gen.Sem.statusAll, Gen.Sem.statusAllOverlay, Gen.Sem.statusAllFilter, execSA]
+      | some p =>
+        cases hk : p.kind <;> cases hh : heldAs { s with cur := fun _ => none } c p.mode <;>
+          simp [hk, hh, heldAs] at * <;>
+          simp [*, heldAs, firstRow, holdsLits, envErr, envSelf, Gen.Sem.statusAll, Gen.Sem.statusAllOverlay, Gen.Sem.statusAllFilter, execSA]
+
 theorem tables_known_c :
     (known Gen.Sem.enqueue && known Gen.Sem.track && known Gen.Sem.untrack && known Gen.Sem.recover &&
      known Gen.Sem.status && known Gen.Sem.addError && known Gen.Sem.recoverAll && known Gen.Sem.recoverAllBody &&
-     known Gen.Sem.localBody) = true := by decide
+     known Gen.Sem.localBody && known Gen.Sem.statusAll && known Gen.Sem.statusAllOverlay && known Gen.Sem.statusAllFilter) = true := by decide
 
 end CV.C05.T
